@@ -41,6 +41,22 @@ EXTENDS Hist, Stats
 CONSTANT StrictOneMember   \* FALSE: the weighted error estimates of a ONE-member bin are unconstrained, like its
                            \* standard error (the reading adopted); TRUE: they must equal sqrt(1/w) and 0
 
+CONSTANT JudgeErr2Extreme \* FALSE (adopted): at weight scales 2^wexp where w^2 itself leaves the binary64 range (|wexp| >= 450)
+                           \* the estimate defined through sum(w^2 ...) is not judged; TRUE: it must be scale invariant there too
+
+\* ---- round-4 dimensions of the case record -------------------------------------------------------------
+\*  nan  : Seq(position) - the data handed to the code carry NaN (missing values) at these positions.  With BOTH limits
+\*         given the bins are defined on the data within [min, max]: a NaN is in NO bin, every other datum is binned as
+\*         if the NaN positions held any value outside the limits, and reverse indices still refer to the ORIGINAL
+\*         array (NaN positions included).  BEff makes that the definition: the case is judged with max + 1 there.
+\*         (Without both limits the range itself would be undefined: such cases are not generated and not judged.)
+\*  wexp : the weights handed to the code are w * 2^wexp (exact powers of two keep the lattice exact).  The weighted
+\*         mean, deviation and sum(w^2)-type error are INVARIANT under w -> s w, the summed weight is multiplied by s
+\*         and 1/sum(w) divided by s (theorem WScaleLaw of BinStatsMC.tla): the observation is transported back by the
+\*         refinement mapping (whist / 2^wexp, werr^2 * 2^wexp) and no operator below reads c.wexp - except BErr2Judged.
+BEff(c) == IF "nan" \in DOMAIN c THEN [c EXCEPT !.x = [i \in DOMAIN c.x |-> IF i \in VRange(c.nan) THEN c.max + 1 ELSE c.x[i]]] ELSE c
+BErr2Judged(c) == JudgeErr2Extreme \/ ~("wexp" \in DOMAIN c) \/ (c.wexp < 450 /\ c.wexp > -450)
+
 BRat(q) == [k |-> "rat", n |-> q[1], d |-> q[2]]
 BSent   == [k |-> "sent", n |-> 0, d |-> 1]
 BZero   == <<0, 1>>
@@ -107,7 +123,7 @@ BPlainFailing(pre, v, P, m, va, e2, md) ==
 \* histogram() / wmom() define them:
 \*   mean = sum(w v)/sum(w);  deviation^2 = sum(w (v-mean)^2)/sum(w);
 \*   err  = sqrt(1/sum(w));   err2 = sqrt(sum(w^2 (v-mean)^2))/sum(w)
-BWtFailing(pre, v, w, P, m, va, ei, e2) ==
+BWtFailing(pre, v, w, P, m, va, ei, e2, je) ==
     LET n == Cardinality(P)
     IN IF n = 0
        THEN (IF \A r \in {m, va, ei, e2} : r.k \in {"sent", "nan"} THEN {} ELSE {pre \o "stat_of_empty_bin"})
@@ -115,7 +131,7 @@ BWtFailing(pre, v, w, P, m, va, ei, e2) ==
             (IF BObsEq(va, SVar(v, w, P)) THEN {} ELSE {pre \o "std"}) \cup
             (IF n = 1 /\ ~StrictOneMember THEN {}
              ELSE (IF BObsEq(ei, SErr2Inv(w, P)) THEN {} ELSE {pre \o "err"}) \cup
-                  (IF BObsEq(e2, SErr2Calc(v, w, P, SMean(v, w, P))) THEN {} ELSE {pre \o "err2"}))
+                  (IF ~je \/ BObsEq(e2, SErr2Calc(v, w, P, SMean(v, w, P))) THEN {} ELSE {pre \o "err2"}))
 
 BWhistFailing(w, P, r) ==
     IF P = {} THEN (IF BObsEq(r, BZero) \/ r.k = "sent" THEN {} ELSE {"whist_of_empty_bin"})
@@ -135,8 +151,8 @@ BBinFailing(c, o, i, P) ==
         BPlainFailing("", c.x, P, o.mean[i], o.var[i], o.err2[i], o.med[i]) \cup
         (IF o.hasy THEN BPlainFailing("y", c.y, P, o.ymean[i], o.yvar[i], o.yerr2[i], o.ymed[i]) ELSE {}) \cup
         (IF o.hasw THEN BWhistFailing(c.w, P, o.whist[i]) \cup
-                        BWtFailing("w", c.x, c.w, P, o.wmean[i], o.wvar[i], o.werri[i], o.werr2[i]) ELSE {}) \cup
-        (IF o.hasw /\ o.hasy THEN BWtFailing("wy", c.y, c.w, P, o.wymean[i], o.wyvar[i], o.wyerri[i], o.wyerr2[i]) ELSE {})}
+                        BWtFailing("w", c.x, c.w, P, o.wmean[i], o.wvar[i], o.werri[i], o.werr2[i], BErr2Judged(c)) ELSE {}) \cup
+        (IF o.hasw /\ o.hasy THEN BWtFailing("wy", c.y, c.w, P, o.wymean[i], o.wyvar[i], o.wyerri[i], o.wyerr2[i], BErr2Judged(c)) ELSE {})}
 
 \* requires valid reverse indices (pointers and members) for nb bins
 BStatsFailing(c, o, nb) ==
@@ -182,7 +198,7 @@ BByNumFailing(c, o) ==
     IN IF s # {} \/ ~o.hasrev THEN s ELSE BStatsFailing(c, o, Len(BCounts(c)))
 
 \* ---- the whole observation ---------------------------------------------------------------------
-BFailing(c, o) ==
+BFailingE(c, o) ==
     IF o.err # "none" THEN (IF NoData(c) \/ (c.mode # "nperbin" /\ Degenerate(c)) THEN {} ELSE {"unexpected_error"})
     ELSE IF NoData(c) THEN {"nodata_not_rejected"}
     ELSE IF c.mode = "nperbin" THEN (IF o.stats THEN BByNumFailing(c, o) ELSE BByNumStructFailing(c, o))
@@ -193,6 +209,8 @@ BFailing(c, o) ==
          ELSE BEdgesFailing(c, o, NBin(c)) \cup
               (IF o.hasrev THEN BStatsFailing(c, o, NBin(c))
                ELSE IF o.wantrev THEN {"rev_missing"} ELSE {})
+
+BFailing(c, o) == IF "nan" \in DOMAIN c /\ ~(c.hasmin /\ c.hasmax) THEN {} ELSE BFailingE(BEff(c), o)
 
 BAccept(c, o) == BFailing(c, o) = {}
 
@@ -282,7 +300,7 @@ BScPlainFailing(pre, v, P, T, K, shift, m, va, e2, md) ==
             (IF BObsEq(md, RAdd(BLMedian(v, P, T, K \div T), RInt(shift))) THEN {} ELSE {pre \o "median"}) \cup
             (IF BObsIn(e2, {RDiv(pop, RInt(n)), RDiv(samp, RInt(n))}) THEN {} ELSE {pre \o "err"})      \* K err^2 = var / n
 BScWtFailing(pre, v, w, P, T, K, shift, m, va, ei, e2) ==
-    IF P = {} THEN BWtFailing(pre, v, w, P, m, va, ei, e2)
+    IF P = {} THEN BWtFailing(pre, v, w, P, m, va, ei, e2, TRUE)
     ELSE (IF BObsEq(m, RAdd(BLMean(v, w, P, T), RInt(shift))) THEN {} ELSE {pre \o "mean"}) \cup
          (IF BObsEq(va, BLVar(v, w, P, T)) THEN {} ELSE {pre \o "std"}) \cup
          (IF BObsEq(ei, RNorm(1, SSumW(w, P))) THEN {} ELSE {pre \o "err"}) \cup                             \* K werr^2
